@@ -657,7 +657,9 @@ pub fn valid_blocks(v: &[Block]) -> bool {
                 Inline::A { kids, .. } => inl(kids),
                 Inline::Img { src, alt, .. } => !src.is_empty() && alt.as_ref().map(txt).unwrap_or(true),
                 Inline::Br => true,
-                Inline::Raw(_) => true,
+                // literal markup: white space, whole tags / comments, or one character reference
+                // (the minimiser must not cut it down to stray text)
+                Inline::Raw(r) => r.trim().is_empty() || (r.starts_with('<') && r.ends_with('>') && r.len() >= 4) || (r.starts_with('&') && r.ends_with(';')),
             })
     }
     !v.is_empty()
@@ -988,6 +990,8 @@ pub struct G {
     /// digits-only `<sup>` elements (rendered as superscript characters), some with style
     /// attributes; literal markup, so only for checks that do not identify characters
     pub digit_sup: bool,
+    /// inline elements styled `white-space: pre` (literal markup)
+    pub pre_inline: bool,
 }
 
 impl Default for G {
@@ -1015,6 +1019,7 @@ impl Default for G {
             link_names: false,
             inline_wrap: true,
             digit_sup: false,
+            pre_inline: false,
         }
     }
 }
@@ -1026,6 +1031,10 @@ impl G {
     }
     pub fn depth(mut self, d: u32) -> G {
         self.depth = d;
+        self
+    }
+    pub fn with_pre_inline(mut self) -> G {
+        self.pre_inline = true;
         self
     }
     pub fn with_digit_sup(mut self) -> G {
@@ -1121,11 +1130,33 @@ pub fn inlines_in(g: &G, depth: u32, in_link: bool) -> BoxedStrategy<Vec<Inline>
                 Just("<sup style=\"display:none\">7</sup>"),
                 Just("<sup><b>8</b></sup>"),
                 Just("<sup>9a</sup>"),
+                // numeric characters that are not ASCII digits
+                Just("<sup>\u{b2}</sup>"),
+                Just("<sup>\u{bd}</sup>"),
+                Just("<sup>\u{2460}</sup>"),
+                Just("<sup>\u{ff12}\u{ff13}</sup>"),
+                Just("<sup>\u{663}</sup>"),
+
                 // non-ASCII spaces (not collapsible, not breakable)
                 Just("&nbsp;"),
                 Just("&emsp;"),
                 Just("&#x3000;"),
-                Just("x&nbsp;"),
+            ]
+            .prop_map(|s| Inline::Raw(s.to_string()))
+            .boxed(),
+        ));
+    }
+    if g.pre_inline {
+        // inline elements with preserved white space (need use_doc_css to take effect); only for
+        // checks whose oracle does not care about white space, decoration or annotations
+        leaves.push((
+            1,
+            prop_oneof![
+                Just("<span style=\"white-space:pre\">\tz</span>"),
+                Just("<span style=\"white-space:pre-wrap\">  y\t</span>"),
+                Just("<code style=\"white-space:pre\">a\tb  c</code>"),
+                Just("<span style=\"white-space:pre\"> </span>"),
+                Just("<em style=\"white-space:pre\">\t\tq r</em>"),
             ]
             .prop_map(|s| Inline::Raw(s.to_string()))
             .boxed(),
@@ -1507,6 +1538,11 @@ pub const SPLICES: &[&str] = &[
     "<pre>\u{644}\u{627} \u{263a}\u{fe0f}</pre>",
     "<s>\u{644}\u{627}</s>",
     // empty id-bearing elements and other non-item children, e.g. directly inside a list or table
+    "<sup>\u{b2}</sup>",
+    "<sup>\u{bd}</sup>",
+    "<sup>\u{2460}\u{ff12}</sup>",
+    "<sup>12</sup>",
+    "<span style=\"white-space:pre\">\tz</span>",
     "<span id=\"m\"></span>",
     "<a name=\"t\"></a>",
     "<hr id=\"h\">",
